@@ -676,7 +676,8 @@ def real_fields(line):
             def meanwhile():
                 g = cls.construct(bytearray(other))
                 g.pack()
-            f = realenv.interleaved(lambda: cls.construct(given), int(parts[3]), meanwhile)
+            total = realenv.count_lines(lambda: cls.construct(bytearray(pl)))
+            f = realenv.interleaved(lambda: cls.construct(given), max(1, total * int(parts[3]) // 1000), meanwhile)     # parts[3]: how far in, in thousandths
         else:
             f = cls.construct(given)
     except Exception as e:
@@ -783,7 +784,7 @@ def gen_fields(rng, n, profile):
                 yield f'fields|{name}|' + bytes(pl).hex()
         for _ in range(n):
             yield f'fields|{name}|' + payload_for(rng, name).hex()
-        for at in (1, 2, 4, 7, 11, 16, 22, 29, 37, 50, 70):
+        for at in (1, 30, 80, 150, 230, 320, 400, 480, 550, 620, 700, 780, 850, 920, 970, 999):
             pl = payload_for(rng, name)
             if wellformed(name, pl):
                 yield f'fieldsobs|{name}|{pl.hex()}|{at}'
